@@ -14,7 +14,7 @@ RULE = ("cases: (planar graph, trace of >= 2 points, any configuration incl. wid
 ASSUMPTIONS = ["planar metric, InMemMap; graphs <= 12 nodes, traces <= 12 points",
                "a different best path is accepted only when both paths have the same probability (1e-12 relative: an exact tie)"]
 TOLERANCES = {"logprob": 1e-9, "tie": 1e-12}
-BUDGET = {"quick": {"shards": 8, "examples": 500}, "thorough": {"shards": 16, "examples": 9000}}
+BUDGET = {"quick": {"shards": 8, "examples": 900}, "thorough": {"shards": 16, "examples": 9000}}
 FUZZ = {"thorough": {"runs": 15000, "seed_inputs": 16, "max_len": 4096,
                      "include": ("leuvenmapmatching.matcher", "leuvenmapmatching.util", "leuvenmapmatching.map")}}
 
